@@ -87,7 +87,7 @@ def snapshot(tag, inject=True, only=None):
     base = os.path.join(WORK, tag)
     src = os.path.join(base, "src")
     os.makedirs(src, exist_ok=True)
-    rc, text, _ = run(["rsync", "-a", "--delete", "--exclude", "/target", "--exclude", "/.git",
+    rc, text, _ = run(["rsync", "-rlpgoD", "--checksum", "--delete", "--exclude", "/target", "--exclude", "/.git",
                        "--exclude", "/snapcraft", REPO + "/", src + "/"])
     if rc != 0:
         raise RuntimeError("rsync failed: " + text)
